@@ -36,7 +36,7 @@ Proof. vm_compute. repeat split. Qed.
    anchors are exactly bol_at / eol_at with their dependence on flag m *)
 Theorem C12_anchors_end_to_end_partial :
   forall xpath a fls input,
-    ok_a xpath a = true -> existsb (N.eqb 59) fls = false -> (N.of_nat (length input) < umax)%N ->
+    ok_a xpath a = true -> existsb (N.eqb 59) fls = false -> (N.of_nat (length input) < umax)%N -> valid_in input ->
     match spec_flags xpath fls with
     | Valid sf =>
         s_q sf = false -> s_x sf = false ->
